@@ -453,7 +453,7 @@ pub fn render_float(
 
 	#[allow(clippy::bool_to_int_with_if)]
 	let dot_size = if precision == 0 && !ensure_pt { 0 } else { 1 };
-	padding = padding.saturating_sub(dot_size + precision);
+	padding = padding.saturating_sub(precision.saturating_add(dot_size));
 	render_decimal(out, n < 0.0, whole, padding, 0, blank, sign);
 	if precision == 0 {
 		if ensure_pt {
